@@ -67,6 +67,9 @@ def event_from_generic(item: Any):
             return ("ns", item.prefix, iri[1])
         return ("ns", item.prefix, iri)
     if type(item) in (gs.Triple, gs.Quad):
+        bad = _accessor_mismatch(item)
+        if bad:
+            return bad
         return ("stmt", tuple(from_generic(t) for t in item))
     return ("unknown-event", type(item).__name__, repr(item)[:80])
 
@@ -125,11 +128,24 @@ def event_from_rdflib(item: Any):
         if type(iri) is rdflib.URIRef:
             return ("ns", item.prefix, str(iri))
         return ("ns", item.prefix, ("bad-iri", type(iri).__name__, str(iri)))
+    if type(item) in (rp.Triple, rp.Quad):
+        bad = _accessor_mismatch(item)
+        if bad:
+            return bad
     if type(item) is rp.Triple:
         return ("stmt", tuple(from_rdflib(t) for t in item))
     if type(item) is rp.Quad:
         return ("stmt", (*(from_rdflib(t) for t in item[:3]), from_rdflib(item[3], True)))
     return ("unknown-event", type(item).__name__, repr(item)[:80])
+
+
+def _accessor_mismatch(item: Any):
+    """Statements are tuples WITH named accessors (.s .p .o .g): both views must show the same terms."""
+    names = "spog"[:len(item)]
+    for k, n in enumerate(names):
+        if getattr(item, n) is not item[k]:
+            return ("accessor-mismatch", type(item).__name__, f".{n} is not item[{k}]")
+    return None
 
 
 def rdflib_store_statements(store: Any) -> list:
